@@ -76,6 +76,8 @@ class InvocationResult:
 class Execution:
     def __init__(self, prog: dict, scenario: dict | None = None):
         install.install()
+        from . import exec_trace
+        exec_trace.install_hooks()
         self.prog = prog
         self.sc = dict(scenario or {})
         self.rng = random.Random(self.sc.get("seed", 0))
